@@ -13,6 +13,11 @@ CLAIMS = {
  'C08': ('Every listed word-level and multi-word primitive carries a contract against an integer specification (x mod q, limb-sequence value, '
          'gcd/Bezout definition, pow) and Verus discharges it for all moduli 2<=q<2^61, all operands and all word counts, function by function. '
          'Not covered: bit-serial divide_uint*/divide_u192 (assumed contract), multiply_uint general path, variable-length shifts.', '5 C08'),
+ 'C05': ('Every API form of mod_switch_to_next / mod_switch_to / rescale_to_next / rescale_to and the NTT-plaintext variants is verified against a ghost model of the modulus chain: '
+         'the loops terminate (decreases on the level index), the result is exactly on the requested level, upward moves / past-the-last-level / rescale outside CKKS / wrong representation / invalid operands are refused '
+         '(postconditions on normal return), plain switching leaves the scale unchanged, rescaling divides it by each dropped prime in order, the BGV correction factor is multiplied by q_last^-1 mod t, '
+         'and each result polynomial is the first (k-1)N words of the scheme\'s divide-and-round routine of the source level applied to the source polynomial. '
+         'Not covered: that the divide-and-round routines preserve the message (C10 residue contracts are assumed here), noise.', '5 C05'),
  'C15': ('Serializers without context (scalars, Vec<T>, Modulus, ParmsID, SchemeType, Plaintext, EncryptionParameters, byte-width packing helpers) are verified '
          'against an abstract model of std::io::{Read,Write} quantified over all implementations: Ok implies the complete encoding was written / exactly one encoding '
          'consumed, and no unwrap/panic is reachable. Context-dependent objects (ciphertexts, keys, containers) are not covered.', '5 C15'),
@@ -25,7 +30,7 @@ NOT_APPLICABLE = {
  'C18': 'agreement across n parties and all message delivery orders is a whole-history property; the per-call code sits behind iterator closures, context plumbing and serialization and no contract within reach connects it to "keys correspond to the sum of secret keys"',
 }
 
-PENDING = ['C01', 'C02', 'C03', 'C04', 'C05', 'C06', 'C07', 'C09', 'C10', 'C11', 'C12', 'C13', 'C16', 'C19', 'C20']
+PENDING = ['C01', 'C02', 'C03', 'C04', 'C06', 'C07', 'C09', 'C10', 'C11', 'C12', 'C13', 'C16', 'C19', 'C20']
 
 
 def main():
